@@ -19,7 +19,7 @@ def http_scenarios(quick):
     ]
     bodies = [("none", 0), ("buffer", 1), ("buffer", 4096), ("reader", 17), ("seeker", 300), ("stream", 65536), ("stream", 5), ("empty", 0)]
     rctxs = ["background", "todo", "cancellable", "values", "deadline"]
-    pols = [["retry"], ["retry", "timeout"], ["timeout", "retry"], ["retry", "hedge"], ["breaker", "retry"], ["fallback", "retry", "timeout"], [], ["retrybo"], ["retryx"]]
+    pols = [["retry"], ["retry", "timeout"], ["timeout", "retry"], ["retry", "hedge"], ["breaker", "retry"], ["fallback", "retry", "timeout"], [], ["retrybo"], ["retryx"], ["retryrd"]]
     combos = list(itertools.product(range(len(scripts)), range(len(bodies)), rctxs, range(len(pols)), ["none", "values"], ["roundtripper", "request"]))
     if quick:
         combos = combos[::11]
@@ -30,10 +30,11 @@ def http_scenarios(quick):
     # always: the adapter's default retry policy running out of retries (the caller gets the LAST response inside the ExceededError)
     scripts.append([R(503, 2, mode="slow"), R(200)])
     scripts.append([R(429, 1, mode="slow"), R(503, 3, mode="slow"), R(200, mode="slow")])
-    forced += [(si, 0, "background", pi, "none", via) for si in (len(scripts) - 2, len(scripts) - 1) for pi in (0, 7) for via in ("roundtripper", "request")]
+    forced += [(si, 0, "background", pi, "none", via) for si in (len(scripts) - 2, len(scripts) - 1) for pi in (0, 7, 9) for via in ("roundtripper", "request")]
+    forced += [(si, 0, "background", 9, "none", "roundtripper") for si in (2, 3, 8)]
     scripts.append([R(429, 0), R(503), R(500)])
     scripts.append([R(500), R(err="conn"), R(err="conn")])
-    forced += [(si, bi, rc, len(pols) - 1, "none", via) for si in (4, len(scripts) - 2, len(scripts) - 1) for bi in (0, 3) for rc in ("background", "values") for via in ("roundtripper", "request")]
+    forced += [(si, bi, rc, 8, "none", via) for si in (4, len(scripts) - 2, len(scripts) - 1) for bi in (0, 3) for rc in ("background", "values") for via in ("roundtripper", "request")]
     # always: an upload that cannot be rewound for the second attempt (the execution ends with that error; nothing may be left behind)
     bodies.append(("seekfail", 64))
     forced += [(si, len(bodies) - 1, rc, pi, ec, via) for si in (2, 3) for rc in ("background", "values") for pi in (0, 1) for ec in ("none", "values") for via in ("roundtripper", "request")]
